@@ -61,3 +61,69 @@ func VerifC12_Concurrent() {
 	verifObserve("c12", chunk, n, len(pulled))
 	verifReach("end")
 }
+
+// VerifC13_ConcurrentFault: concurrent mode, one solver-chosen I/O fault, every interleaving
+// within the pre-emption bound: the fault is reported by some later call, or the data are complete.
+func VerifC13_ConcurrentFault() {
+	verifOps, verifFaultHit = 0, false
+	chunk, n := verifParam("chunk"), verifParam("n0")
+	m, err := New(verifKey(0), "verif", "", chunk, true)
+	if err != nil {
+		verifReach("end")
+		return
+	}
+	sawError := false
+	pushed := make([]int, 0, n)
+	for i := 0; i < n && !sawError; i++ {
+		v := verifInt("k"+string(rune('0'+i)), 0, 2)
+		if m.Push(verifKey(v)) != nil {
+			sawError = true
+			break
+		}
+		pushed = append(pushed, v)
+	}
+	if !sawError && m.Finalise() != nil {
+		sawError = true
+	}
+	var pulled []int
+	if !sawError {
+		for p := 0; p <= n; p++ {
+			var x verifKey
+			perr := m.Pull(&x)
+			if perr == io.EOF {
+				break
+			}
+			if perr != nil {
+				sawError = true
+				break
+			}
+			pulled = append(pulled, int(x))
+		}
+	}
+	if !sawError {
+		// success throughout: then exactly the pushed values must have been delivered
+		verifAssert(len(pulled) == len(pushed), "success-throughout-delivers-every-value")
+		same := len(pulled) == len(pushed)
+		for _, e := range pushed {
+			np, nq := 0, 0
+			for _, x := range pushed {
+				if x == e {
+					np++
+				}
+			}
+			for _, x := range pulled {
+				if x == e {
+					nq++
+				}
+			}
+			if np != nq {
+				same = false
+			}
+		}
+		verifAssert(same, "success-throughout-delivers-the-pushed-multiset")
+	}
+	verifSettle()
+	m.CleanUp()
+	verifObserve("c13c", chunk, n, sawError, len(pulled))
+	verifReach("end")
+}
